@@ -122,9 +122,16 @@ def measure (U : Uni) (s : Bytes) : Except String Nat :=
   | .error m => .error m
   | .ok its => .ok (sumWidths U its)
 
+/-- `for _ in 0..n { result.push(fillchar) }` -/
+def pushFill (c : Bytes) : Nat → Bytes → Bytes
+  | 0, acc => acc
+  | n + 1, acc => pushFill c n (acc ++ c)
+
 /-- Inner `for g in t.graphemes(true)` loop of `truncate_str_impl`; returns (used, result, cut)
-where `cut` = the loop ended with `break`. `fill` is `fill2w`. `.error` = the `debug_assert!` on a
-grapheme wider than 2 (debug builds). -/
+where `cut` = the loop ended with `break`. `fill` is `fill2w`. A grapheme wider than 2 columns that
+does not fit: the fallback pushes the fill character `display_width.saturating_sub(used)` times
+(`used` is not advanced) — since fix d6cf9d0; before it (`Generated.truncAssertsWideCluster`, read
+from the source on every run) a `debug_assert!` stood in front of the fallback: `.error`. -/
 def takeGraphemes (U : Uni) (dw : Nat) (fill : Option Bytes) :
     List Bytes → Nat → Bytes → Except String (Nat × Bytes × Bool)
   | [], used, acc => .ok (used, acc, false)
@@ -135,7 +142,9 @@ def takeGraphemes (U : Uni) (dw : Nat) (fill : Option Bytes) :
       | none => .ok (used, acc, true)
       | some c =>
         if w = 2 ∧ used < dw then .ok (used, acc ++ c, true)
-        else if w > 2 then .error "debug_assert: strange grapheme width"
+        else if w > 2 then
+          if Generated.truncAssertsWideCluster then .error "debug_assert: strange grapheme width"
+          else .ok (used, pushFill c (dw - used) acc, true)
         else .ok (used, acc, true)
     else takeGraphemes U dw fill gs (used + w) (acc ++ g)
 
